@@ -37,7 +37,7 @@ class FnSummary:
     pass
 
 
-def summarize_fn(ctx, fn, specialise=None, assume=None, split=frozenset(), ranges=None, pre=None, record_arith=False, ret_filter=None, kill_ret_variant=None, record_switch=False):
+def summarize_fn(ctx, fn, specialise=None, assume=None, split=frozenset(), ranges=None, pre=None, record_arith=False, ret_filter=None, kill_ret_variant=None, record_switch=False, force_switch=None):
     """Run an instruction helper `fn(vm, args...)` on an abstract machine with atom arguments.
     specialise: {arg_name: int} fixes an argument to a constant."""
     P = ctx.program
@@ -73,6 +73,7 @@ def summarize_fn(ctx, fn, specialise=None, assume=None, split=frozenset(), range
     if kill_ret_variant is not None:
         I.kill_ret_variant = kill_ret_variant
     I.record_switch = record_switch
+    I.force_switch = force_switch
     ret = I.run_fn(fn, args, st)
     s = FnSummary()
     s.fn = fn
